@@ -210,6 +210,49 @@ def run(chk):
                     chk.violation('reactor-dict:reused-context:%s' % st,
                                   '%s built on a context re-used across versions decodes protocol %d with another version\'s table: %r'
                                   % (rc.__name__, v, diff), {'version': v, 'state': st})
+    # ---- the decoder follows the connection's state: a frame read by the login reactor and the same frame read by the
+    #      playing reactor of the same connection right afterwards (as after login success) select the class of that id
+    #      in the respective table - or the generic packet where the id is not registered
+    import socket as _socket
+    from ..profile import Profile
+    from .. import peer as P
+    from minecraft.networking.packets import Packet as _Packet
+    handovers = 0
+    for v in (supv if chk.tier == 'thorough' else supv[::3] + [47, 107, 385, 390]):
+        prof = Profile(v)
+        c = conn.Connection('localhost', 25565, allowed_versions={v})
+        frames_ = [('login_success', prof.login_success(bytes(range(16)), 'u')), ('login_compress', prof.login_compress(300)),
+                   ('login_disconnect', prof.login_disconnect('{"text":"x"}'))]
+        if prof.c.get('plugin_request') is not None:
+            frames_.append(('plugin_request', prof.plugin_request(5, 'a:b', b'zz')))
+        play_tab = {x['id']: x['cls'] for x in by_key[(v, 'play')]['ids']} if (v, 'play') in by_key else {}
+        login_tab = {x['id']: x['cls'] for x in by_key[(v, 'login')]['ids']}
+        for kind, payload in frames_:
+            pid = prof.c[kind]
+            if pid in play_tab:
+                continue            # the payload of the login packet is not a payload of the play packet of that id
+            got = []
+            for rc in (conn.LoginReactor, conn.PlayingReactor):
+                s1, s2 = _socket.socketpair()
+                try:
+                    s1.sendall(P.venc(len(payload)) + payload)
+                    fo = s2.makefile('rb', 0)
+                    pk = rc(c).read_packet(fo, timeout=2)
+                    fo.close()
+                    got.append((type(pk).__name__, getattr(pk, 'id', None)) if pk is not None else ('nothing', None))
+                except Exception as e:      # noqa
+                    got.append(('raised %s' % type(e).__name__, None))
+                finally:
+                    s1.close()
+                    s2.close()
+            handovers += 1
+            chk.evaluations += 1
+            if got[0][0] != login_tab.get(pid) or got[1] != ('Packet', pid):
+                chk.violation('reactor-dict:state-handover', 'protocol %d, id 0x%02X read by the login reactor and then by the playing reactor of '
+                              'the same connection: decoded as %r and %r; the tables say %s and an unregistered id (generic packet)'
+                              % (v, pid, got[0], got[1], login_tab.get(pid)), {'version': v, 'id': pid})
+                break
+    chk.extra['state_handover_probes'] = handovers
     chk.sample({'v': tab[-8]['v'], 'st': tab[-8]['st'], 'dir': tab[-8]['dir'], 'ids': tab[-8]['ids'][:5]})
     play = [t for t in tab if t['v'] == 757 and t['st'] == 'play' and t['dir'] == 'clientbound'][0]
     chk.sample({'v': 757, 'st': 'play', 'dir': 'clientbound', 'n_classes': len(play['ids']), 'first': play['ids'][:4]})
